@@ -1874,7 +1874,6 @@ KNOWN_UNMARKED = {
     # declaration lines written after an inline def of the same preamble (no re-mark after it)
     "inline-def:preamble": "F9b", "inline-def:preamble-strict": "F9b",
     "visitCallTag:preamble-strict": "F9b", "visitCallTag:other": "F9b",
-    "cache-wrapper": "F9b",
     "namespace": "F9b",                  # lines of a namespace written after an inline def of the namespace
 }
 
